@@ -9,6 +9,7 @@ CONSTANTS
   ParamSeq <- ParamsSmall
   DeclSeq <- DeclsFull
   MaxParams = 2
+  MinSize = 0
   Bug = "no_second_pass"
 INVARIANT CallSolutionSatisfies
 CHECK_DEADLOCK FALSE
